@@ -5,6 +5,8 @@ path rooted at the variable => identity).  Replay through utils.expression_relat
 objects; also input immutability and independence from previous calls (a second call with another variable in
 between must not change the result).
 """
+import os
+
 import project
 import tlc
 
@@ -46,24 +48,45 @@ def check_case(ctx, r, prev):
             ctx.sample({"tree": r["tree"], "var": r["var"][2], "expected": r["expected"]}, cap=5)
 
 
+_PREV = {}
+
+
+def _both_orders(ctx, records):
+    for r in records:
+        check_case(ctx, r, _PREV)
+    for r in reversed(records):
+        check_case(ctx, r, _PREV)
+
+
 def run(ctx):
     ctx.rule = ("(expression, variable): all trees with <= MaxOps operator/bracket nodes over 25 atoms (paths of depth "
                 "1..4 rooted at the variable / elsewhere / at a namespaced namesake, variable name as inner segment, "
                 "nested lambdas) x 3 variable names; non-trivial = distinct pair whose expected result differs from "
                 "the input")
     ctx.trusted = ["spec/Rewrite.tla Relative", "harness/project.py"]
+    big = ctx.tier != "quick"
+    raw = os.path.join(tlc.BUILD, "c17_export_%d.txt" % os.getpid()) if big else None
     res = tlc.run("MC_C17", constants={"MaxOps": 1 if ctx.tier == "quick" else 2},
-                  keep_lines=lambda r: r.get("k") == "case", timeout=7000, heap="12g")
+                  keep_lines=lambda r: r.get("k") == "case", timeout=7000, heap="12g", raw_out=raw)
     ctx.add_tlc(res)
     if res.violation:
         ctx.violation({"kind": "model", "inv": res.violation}, {"tlc": res.raw_tail[-2000:]})
-    prev = {}
-    # two passes in different orders, so that cross-call state shows whichever case comes first
-    recs = res.records
-    for r in recs:
-        check_case(ctx, r, prev)
-    for r in reversed(recs[: 4000 if ctx.tier == "quick" else len(recs)]):
-        check_case(ctx, r, prev)
+    if big:
+        # millions of pairs: decoded and replayed in slices by forked workers (each slice forwards and backwards)
+        try:
+            n = ctx.parallel_file(raw, _both_orders, keep=lambda r: r.get("k") == "case", batch=4000)
+        finally:
+            os.unlink(raw)
+        if res.violation is None and n != res.distinct:
+            raise tlc.MachineryError("C17: %d exported lines decoded, TLC reports %d distinct states" % (n, res.distinct))
+    else:
+        prev = {}
+        # two passes in different orders, so that cross-call state shows whichever case comes first
+        recs = res.records
+        for r in recs:
+            check_case(ctx, r, prev)
+        for r in reversed(recs[:4000]):
+            check_case(ctx, r, prev)
     ctx.exhaustive = True
 
 
